@@ -356,6 +356,17 @@ def handle (line : String) : Out :=
             if fromSqs.any (fun s => p.at s == some (p.turn, Spec.Kind.pawn)) then Spec.sqName t else "-"
         s!"key={f[0]!}_{f[1]!}_{f[2]!}_{epAvail}"
     ⟨model, spec⟩
+  | "objafter" =>
+    -- objafter <seed> <fen...>: per legal move (generation order) hash and evaluation (White, ply 1) of the successor
+    let seed := parts[1]!.toNat!
+    let fen := rest 2
+    match parseFenM fen with
+    | Option.none => ⟨"badfen", "-"⟩
+    | some s =>
+      let (kt, _) := KeyTable.ofRng (Rng.seedFromU64 seed.toUInt64)
+      let ms := legalMoves s
+      ⟨s!"{ms.length} " ++ joinSp (ms.map fun r =>
+        s!"{(hash kt.keys r.2).toNat}:{match evaluate r.2 .white 1 with | some e => toString e | Option.none => "panic"}"), "-"⟩
   | "eval" =>
     -- eval <w|b> <ply> <fen...>
     let persp : Color := if parts[1]! == "w" then .white else .black
